@@ -385,6 +385,16 @@ func (rn *c12Runner) run(k *c12Case) {
 	}
 	e2 := env.cue(dir, nil, append(append(append([]string{"export"}, finalIn...), "--out", "json"), finalArgs...)...)
 	if e2.code != 0 {
+		if m, ok := k.val.(*c12Map); ok && k.impMode != 3 && (bytes.Contains(e2.stderr, []byte("expected 'STRING', found ':'")) || bytes.Contains(e2.stderr, []byte("expected 'IDENT', found ':'"))) {
+			for _, key := range m.Keys {
+				if key == "import" || key == "package" {
+					// known: a leading field named import/package is written unquoted
+					rn.fail(k, "cue-leading-field-import-or-package", "the CUE file written by cue (export --out cue / import) starts with an unquoted field named import or package and does not parse",
+						map[string]any{"exported": c12Trunc(data), "stderr": c12Trunc(e2.stderr)})
+					return
+				}
+			}
+		}
 		rn.fail(k, "reexport-fails", fmt.Sprintf("cue export %s --out json exits %d after the round trip", final, e2.code),
 			map[string]any{"exported": c12Trunc(data), "stderr": c12Trunc(e2.stderr)})
 		return
@@ -502,7 +512,7 @@ func runC12(c *Cfg) {
 	env.pool = pool
 	defer pool.close()
 	rn := &c12Runner{c: c, env: env}
-	n := c.Pick(400, 8000)
+	n := c.Pick(400, 5000)
 	cr := root.Sub()
 	cases := make([]*c12Case, 0, n)
 	for i := 0; i < n; i++ {
